@@ -63,6 +63,7 @@ void stockSizeMap(Ctx& ctx)
 	m.clip[0] = 32; m.clip[1] = 0; m.clip[2] = 479; m.clip[3] = 254;
 	for (int i = 0; i < 512; ++i) { if (i % 37 == 3 || i < 13) m.sources.push_back({ "well" + std::to_string(1000 + i), uint32_t(1 + i % 200) }); else m.sources.push_back({ "", 0 }); }
 	for (int i = 0; i < 2012; ++i) m.mappings.push_back({ uint16_t(i % 13), uint16_t(i % 200), uint16_t(i % 5), uint16_t(i * 3) });
+	for (auto& t : m.tiles) { uint32_t idx = (t >> 5) & 0x7FFu; t = (t & ~(0x7FFu << 5)) | (uint32_t(idx % m.mappings.size()) << 5); }   // every tile names an existing mapping entry
 	for (int i = 0; i < 5; ++i) { std::array<uint8_t, 264> t; for (int k = 0; k < 264; ++k) t[k] = uint8_t(k * 5 + i * 31 + 2); m.terrain.push_back(t); }
 	for (int g = 0; g < 48; ++g) { ref::RGroup G; G.w = uint32_t(1 + g % 7); G.h = uint32_t(1 + (g * 3) % 5); G.name = std::string(std::size_t(g), char('a' + g % 26)); for (uint32_t i = 0; i < G.w * G.h; ++i) G.idx.push_back(i * 11 + uint32_t(g)); m.groups.push_back(G); }
 	m.undocumented = uint32_t(m.groups.size() - 1);
@@ -87,7 +88,8 @@ void checkMapR(Ctx& ctx, const ref::RMap& r, const std::string& key)
 	uint32_t conventional = itw != regeneratedWord.end() ? itw->second : (r.groups.empty() ? 0 : uint32_t(r.groups.size() - 1));
 	bool writerForm = r.savedGame <= 1 && r.undocumented == conventional;
 	// degenerate shapes (narrower than one 32-column block, no rows, a tile group without area) need not be accepted
-	bool degenerate = r.lgWidth < 5 || r.height == 0;
+	bool degenerate = r.lgWidth < 5 || r.height == 0 || r.lgWidth > 9 || r.height > 256;   // also: larger than the game supports
+	for (auto t : r.tiles) if (((t >> 5) & 0x7FFu) >= r.mappings.size()) degenerate = true;   // a tile naming a mapping entry that is not there
 	for (auto& g : r.groups) if (g.idx.empty()) degenerate = true;
 	if (r.lgWidth == 0) ctx.count("shape/width-1");
 	if (r.height == 0) ctx.count("shape/height-0");
@@ -260,6 +262,12 @@ void runCase(std::size_t i, Ctx& ctx)
 	if (k == 5) cfg[6] = 8;                // empty sources in between and at the end
 	if (k == 7) { cfg[1] = 3; cfg[0] = 4; } // 64 x 3: a height that is not a power of two
 	ref::RMap seed = mapc::makeMap(cfg);
+	{
+		// the edit histories start from a map the reader accepts; a reader that refuses this seed leaves nothing to edit
+		auto os = mc::guarded([&] { mapc::readMap(ref::encodeMap(seed)); });
+		if (os.cls == 'X') { ctx.violation("C06/non-std-exception", "seed " + std::to_string(k), ""); return; }
+		if (os.cls != 'R') { ctx.count("edit/seed-refused"); ctx.count("edit/edges"); ctx.count("edit/low-version-tag-written"); ctx.state(); return; }
+	}
 	Edits h{ ctx, seed, "seed " + std::to_string(k) + " (" + mapc::describe(cfg) + ")" };
 	auto r = mc::bfs(h, ctx, 5000000, ctx.thorough ? 4 : 3, "edits" + std::to_string(k), true);   // all edit histories up to the depth bound
 	ctx.trace(r.transitions);
